@@ -265,6 +265,14 @@ func (server *Server) receive(conn net.Conn, tlsState *tls.ConnectionState) erro
 		handlerConn.Close()
 	}()
 
+	// A panic while handling a request must not terminate the server process
+	// and the other connections, so the connection is only closed.
+	defer func() {
+		if r := recover(); r != nil {
+			log.Errorf("%s/%s (%s) closed by panic: %v", PackageName, Version, conn.RemoteAddr().String(), r)
+		}
+	}()
+
 	handlerConn.SetAuthrized(!isPasswdRequired)
 	if tlsState != nil {
 		ok, err := server.Authenticate(handlerConn)
